@@ -40,7 +40,7 @@ P = {
              text="Exploration: (A) engine histories dominated by write sessions with write/seek/flush scripts, boundary lengths, copy/move, on all configurations incl. overlay copy-up, every file read back after every step against Cursor semantics with a random read-buffer size; (B) session cases checking flush visibility through a still-open handle, read-back with buffer sizes 1,2,7,4096,8192,len,len+1, metadata length, copy/move within an instance, to a twin instance and to another backend.",
              ref="§4 C04"),
  "C06": dict(technique="runtime monitoring: bounded complete input sweep + random inputs against an independent reference resolver and algebraic laws",
-             text="Exploration (exhaustive for the token bound): every concatenation of up to 6 (quick) / 8 (thorough) tokens from {'/','.','..','a','b.c','é','.h','a.'} joined onto bases of depth 0-3, plus random strings and random join/parent/root chains, on VfsPath and AsyncVfsPath; oracle = independent component-stack resolver, canonical-form predicate, laws (parent-of-join, filename, extension, root, is_root, equality within/across instances, composition).",
+             text="Exploration (exhaustive for the token bound): every concatenation of up to 7 (quick) / 9 (thorough) tokens from {'/','.','..','a','b.c','é','.h','a.'} joined onto bases of depth 0-3, plus random strings and random join/parent/root chains, on VfsPath and AsyncVfsPath; oracle = independent component-stack resolver, canonical-form predicate, laws (parent-of-join, filename, extension, root, is_root, equality within/across instances, composition).",
              ref="§4 C06"),
  "C14": dict(technique="runtime monitoring: call-by-call differential of real handles against std::io::Cursor over generated read/write/seek scripts",
              text="Exploration: generated contents placed directly or in a lower overlay layer; read scripts (read/seek Start|Current|End with offsets around 0, +-len, +-2^40/read_to_end) and write scripts (create or append; write/seek/flush) are run call by call on the real handle and on std::io::Cursor; every result, the final position and the bytes published by drop must agree. Handles from Mem, Phys, Alt, Ovl (served from lower / copied up) and (C18) EmbeddedFS.",
